@@ -8,6 +8,7 @@ import (
 	"os"
 	"reflect"
 	"sort"
+	"strconv"
 	"strings"
 	"time"
 
@@ -334,6 +335,68 @@ func c03Run(c *engine.Ctx) {
 		}
 	}
 
+	// (O4b) natives reached through syntax (.[a], .[a:b], their update and delete forms, the slice objects of
+	// getpath/setpath/delpaths) and a few counting builtins: the same numbers in every Go representation, fractional
+	// ones included, must give the same result
+	c.Sub("syntax-forms")
+	{
+		progs := []string{".[$a:$b]", ".[$a:]", ".[:$b]", ".[$a]", ".[$a:$b] = [\"x\"]", "del(.[$a:$b])", "del(.[$a])", ".[$a:$b] |= map(0)", ".[$a] = 9",
+			"setpath([{start: $a, end: $b}]; [\"x\"])", "getpath([{start: $a, end: $b}])", "delpaths([[{start: $a, end: $b}]])", "getpath([$a])", "[limit($a; .[]?)]", "[range($a; $b)]", "[nth($a; .[]?)]",
+			"[.[]?] | .[$a:$b]", "path(.[$a:$b])", "path(.[$a])", "[paths] | .[$a:$b]", "to_entries? | .[$a:$b]", "[splits(\"c\")?] | .[$a:]", "(tostring | .[$a:$b])", "has($a)", "[.[$a:$b][]?]", "indices($a)", "index($a)", "bsearch($a)"}
+		var vals []float64
+		for x := -6.0; x <= 6; x += 0.5 {
+			vals = append(vals, x)
+		}
+		vals = append(vals, 1e18, -1e18, 2.25, -0.75)
+		reps := func(f float64) []any {
+			var out []any
+			if f == math.Trunc(f) && math.Abs(f) < 1e15 {
+				out = append(out, int(f), f, json.Number(fmt.Sprintf("%d", int(f))), json.Number(fmt.Sprintf("%d.0", int(f))), json.Number(fmt.Sprintf("%de0", int(f))), big.NewInt(int64(f)))
+			} else if f == math.Trunc(f) {
+				out = append(out, f, json.Number(strconv.FormatFloat(f, 'f', 0, 64)), json.Number(strconv.FormatFloat(f, 'e', -1, 64)), new(big.Int).SetInt64(int64(f)))
+			} else {
+				out = append(out, f, json.Number(strconv.FormatFloat(f, 'f', -1, 64)), json.Number(strconv.FormatFloat(f, 'f', -1, 64)+"0"), json.Number(strconv.FormatFloat(f*10, 'f', -1, 64)+"e-1"))
+			}
+			return out
+		}
+		ins := []any{univ.J(`[0,1,2,3,4]`), "abcde", nil, univ.J(`{"a":1}`), univ.J(`[[0],[1],[2]]`)}
+		si := 0
+		for _, p := range progs {
+			code, err := compileVars("try ["+p+"] catch [\"error\"]", "$a", "$b")
+			if err != nil {
+				c.Note("syntax-forms program does not compile: %s: %v", p, err)
+				continue
+			}
+			for _, va := range vals {
+				si++
+				if !c.MineIdx(si) || c.Expired() {
+					continue
+				}
+				for _, vb := range vals {
+					ras, rbs := reps(va), reps(vb)
+					for ii, in := range ins {
+						base := RunCode(code, univ.Copy(in), DefaultBudget, ras[0], rbs[0]).String()
+						c.Eval()
+						for ia, ra := range ras {
+							for ib, rb := range rbs {
+								if ia == 0 && ib == 0 || ia > 0 && ib > 0 && ia != ib {
+									continue // each operand in every representation against the canonical other, and both in the same one
+								}
+								c.Eval()
+								if got := RunCode(code, univ.Copy(in), DefaultBudget, ra, rb).String(); got != base {
+									c.Violation(fmt.Sprintf("%s $a=%s $b=%s in#%d", p, univ.Repr(ra), univ.Repr(rb), ii), "representation-dependent", map[string]any{"name": p, "arity": -3, "input": univ.ToTagged(in), "args": univ.ToTagged([]any{ra, rb}),
+										"why": fmt.Sprintf("%s with $a=%s $b=%s gives %s, with $a=%s $b=%s it gives %s", p, univ.Repr(ras[0]), univ.Repr(rbs[0]), base, univ.Repr(ra), univ.Repr(rb), got)})
+								}
+							}
+						}
+					}
+					c.DistinctN(1)
+				}
+			}
+		}
+		c.Sample(map[string]any{"program": ".[$a:$b]", "values": "-6..6 by 0.5, +-1e18, 2.25, -0.75", "representations": "int, float64, json.Number in 3 spellings, *big.Int", "inputs": len(ins)})
+	}
+
 	// (O3b) every jq-defined builtin behaves as its published definition interpreted by refjq
 	c.Sub("jq-defined")
 	defs := gojq.VerifBuiltinFuncDefs()
@@ -658,7 +721,7 @@ func init() {
 	engine.Register(&engine.Check{
 		ID:    "C03",
 		Level: "exploration",
-		Rule: "for every builtin name/arity reported by `builtins` (arity <= 2) and the @format natives: all (input, arg1, arg2) tuples over the builtin universe (every type, empty/singleton/nested containers, boundary and huge numbers in every Go representation, NaN/inf, multi-byte and invalid UTF-8 strings, path- and entry-shaped values); each tuple is checked for totality and catchability, against a reference native written from the manual where one exists (~45 natives, + - * / % on all type pairs, 25 math functions), and for representation independence under every uniform re-lifting of its numbers and under 4 rotating re-liftings (equal numbers of input and arguments meet in different representations); " +
+		Rule: "for every builtin name/arity reported by `builtins` (arity <= 2) and the @format natives: all (input, arg1, arg2) tuples over the builtin universe (every type, empty/singleton/nested containers, boundary and huge numbers in every Go representation, NaN/inf, multi-byte and invalid UTF-8 strings, path- and entry-shaped values); each tuple is checked for totality and catchability, against a reference native written from the manual where one exists (~45 natives, + - * / % on all type pairs, 25 math functions), and for representation independence under every uniform re-lifting of its numbers and under 4 rotating re-liftings (equal numbers of input and arguments meet in different representations); the natives behind syntax (index, slice, their update/delete forms, slice objects in getpath/setpath/delpaths, limit/range/nth/has/indices/bsearch) with integral and fractional bounds in every representation; " +
 			"every jq-defined builtin x filter arguments x 20 inputs is compared with its published definition in builtin.jq interpreted by the reference interpreter, and builtin.go is tied to builtin.jq definition by definition. All tuples are distinct by construction.",
 		Assume:         []string{"reference natives transcribe the jq manual and decline (undefined) outside the domain they are sure about", "natives without a reference (bessel/gamma family, date formatting) get totality, catchability and representation independence only"},
 		Run:            c03Run,
